@@ -27,14 +27,20 @@ def macro_table(cls: str):
 
 
 class Evaluator:
-    def __init__(self, repo: Repo, relpath: str, clsname: Optional[str] = None, max_depth: int = 2):
+    def __init__(self, repo: Repo, relpath: str, clsname: Optional[str] = None, max_depth: int = 2, scopes=()):
         self.repo = repo
         self.relpath = relpath
         self.clsname = clsname
         self.max_depth = max_depth
+        self.scopes = list(scopes)  # qualified names of enclosing functions whose nested defs may be called
 
     def _callee(self, call: ast.Call) -> Optional[FuncInfo]:
         f = call.func
+        if isinstance(f, ast.Name):
+            for sc in self.scopes:
+                qn = "%s.<locals>.%s" % (sc, f.id)
+                if self.repo.has_func(self.relpath, qn):
+                    return self.repo.func(self.relpath, qn)
         if isinstance(f, ast.Name) and self.repo.has_func(self.relpath, f.id):
             return self.repo.func(self.relpath, f.id)
         if isinstance(f, ast.Attribute) and isinstance(f.value, ast.Name) and f.value.id in ("self", "cls", self.clsname or "") and self.clsname:
